@@ -53,6 +53,7 @@ func H_C07_int32_kernel() {
 	vAssert("roundtrip", got == v)
 }
 
+// H_C07_int64_kernel: every int64 encodes in the shortest of the five long forms and decodes to itself.
 func H_C07_int64_kernel() {
 	v := vInt64("v")
 	b := encodeLong(v)
